@@ -297,8 +297,63 @@ def run_job(args):
     return version, pending, viol, stats
 
 
+def isolation_cases(rep):
+    """A pending command belongs to one protocol handler: a frame given to *another* EZSP object in the same process, or to the
+    handler that replaced it after a version switch, never completes it -- whatever sequence number and frame ID it carries
+    (state shared between handler instances, e.g. a class-level table, would show here and nowhere else)."""
+    n = 0
+    for va in ezspenv.VERSIONS:
+        for vb in sorted({4, 8, 13, 14, va}):
+            for mode in ("other-instance", "replaced-handler"):
+                n += 1
+                loop = VLoop().enter()
+                try:
+                    a, _ = ezspenv.make_ezsp(loop, va)
+                    cls_a = type(a._protocol)
+                    task = loop.create_task(a._command("getNodeId"))
+                    loop.settle()
+                    got_b = []
+                    if mode == "other-instance":
+                        b, _ = ezspenv.make_ezsp(loop, vb)
+                    else:
+                        b = a
+                        a._switch_protocol_version(vb)
+                    b.add_callback(lambda nme, args: got_b.append(nme))
+                    cls_b = type(b._protocol)
+                    key = f"C08|isolation|{mode}"
+                    for name in ("getNodeId", "getEui64", "nop"):
+                        cid = cls_b.COMMANDS[name][0]
+                        payload = {"getNodeId": bytes([0x34, 0x12]), "getEui64": bytes(range(8)), "nop": b""}[name]
+                        try:
+                            b.frame_received(ezspenv.enc_response_hdr(vb, 0, cid) + payload)
+                        except BaseException as e:  # noqa
+                            rep.add_violation(key + "|raised", f"v{va} pending getNodeId, {mode} v{vb}: frame_received raised {type(e).__name__}: {e}",
+                                              {"world": "c08", "kind": "isolation", "va": va, "vb": vb, "mode": mode})
+                        loop.settle()
+                        if task.done():
+                            res = "cancelled" if task.cancelled() else (repr(task.exception()) if task.exception() else repr(task.result()))
+                            rep.add_violation(key, f"a getNodeId call pending on an EZSP v{va} handler was ended ({res}) by a {name} frame given to "
+                                              f"{'another EZSP object' if mode == 'other-instance' else 'the handler that replaced it'} (v{vb})",
+                                              {"world": "c08", "kind": "isolation", "va": va, "vb": vb, "mode": mode})
+                            break
+                    if mode == "other-instance" and not task.done():
+                        # ... and its own reply still completes it
+                        a.frame_received(ezspenv.enc_response_hdr(va, 0, cls_a.COMMANDS["getNodeId"][0]) + bytes([0x78, 0x56]))
+                        loop.settle()
+                        if not (task.done() and not task.cancelled() and task.exception() is None and list(task.result()) == [0x5678]):
+                            rep.add_violation(key + "|own-reply", f"v{va}: the pending getNodeId call did not complete on its own reply after frames were given to another EZSP object",
+                                              {"world": "c08", "kind": "isolation", "va": va, "vb": vb, "mode": mode})
+                    if not task.done():
+                        task.cancel()
+                        loop.settle()
+                finally:
+                    loop.shutdown()
+    return n
+
+
 def main(tier: str) -> int:
     rep = report.Report("C08", tier, "exploration")
+    n_iso = isolation_cases(rep)
     pend = PENDING if tier != "quick" else [None, "getEui64", "getValue"]
     jobs = [(v, p, tier) for v in ezspenv.VERSIONS for p in pend]
     results = list(explore.pool().imap_unordered(run_job, jobs, chunksize=1))
@@ -319,6 +374,7 @@ def main(tier: str) -> int:
         "distinct_nontrivial": tot["callbacks"],
         "base_frames": tot["base_frames"],
         "fresh_command_checks": tot["fresh_checks"],
+        "isolation_cases": n_iso,
         "versions": ezspenv.VERSIONS,
         "pending_variants": [str(p) for p in pend],
         "exhaustive": True,
@@ -335,6 +391,12 @@ def main(tier: str) -> int:
 
 
 def replay(data) -> int:
+    if data.get("kind") == "isolation":
+        rep = report.Report("C08", "quick", "exploration")
+        isolation_cases(rep)
+        for v in rep.violations:
+            print(v.key, v.message)
+        return 1 if rep.violations else 0
     ctx = Ctx(data["version"], data["pending"])
     bad = 0
     for hx in data["frames"]:
